@@ -424,16 +424,19 @@ impl VersionManager {
             let current_min = self.min_version.load(Ordering::Acquire);
             let version = self.current_version.fetch_add(1, Ordering::AcqRel) + 1;
 
+            // Count the token while the lock is still held: a concurrent release must not see
+            // "no active tokens" and advance min_version past the version just handed out
+            self.active_readers.fetch_add(1, Ordering::Relaxed);
+
             (version, current_min)
         } else {
             // Single-threaded modes don't need version tracking
+            self.active_readers.fetch_add(1, Ordering::Relaxed);
             (1, 1)
         };
 
         #[cfg(feature = "zipora_verif")]
         crate::verif_hooks::sched_point(411);
-        // Increment active reader count
-        self.active_readers.fetch_add(1, Ordering::Relaxed);
 
         // Update statistics
         if let Ok(mut stats) = self.stats.lock() {
@@ -467,14 +470,18 @@ impl VersionManager {
 
         let start_time = Instant::now();
 
-        // For OneWriteMultiRead, ensure no other writers are active
-        if self.concurrency_level == ConcurrencyLevel::OneWriteMultiRead {
-            let current_writers = self.active_writers.load(Ordering::Acquire);
-            if current_writers > 0 {
-                return Err(ZiporaError::resource_busy(
-                    "Another writer is already active in OneWriteMultiRead mode",
-                ));
-            }
+        // For OneWriteMultiRead, claim the single writer slot atomically: checking the
+        // counter and incrementing it later would let two racing writers both pass the check
+        let exclusive = self.concurrency_level == ConcurrencyLevel::OneWriteMultiRead;
+        if exclusive
+            && self
+                .active_writers
+                .compare_exchange(0, 1, Ordering::AcqRel, Ordering::Acquire)
+                .is_err()
+        {
+            return Err(ZiporaError::resource_busy(
+                "Another writer is already active in OneWriteMultiRead mode",
+            ));
         }
         #[cfg(feature = "zipora_verif")]
         crate::verif_hooks::sched_point(401);
@@ -482,21 +489,32 @@ impl VersionManager {
         // Acquire version under lock for synchronized levels
         let (version, min_version) = if self.concurrency_level.requires_synchronization() {
             let _lock = self.token_chain_mutex.lock().map_err(|_| {
+                if exclusive {
+                    // give the claimed writer slot back
+                    self.active_writers.fetch_sub(1, Ordering::AcqRel);
+                }
                 ZiporaError::system_error("Failed to acquire token chain mutex for writer")
             })?;
 
             let current_min = self.min_version.load(Ordering::Acquire);
             let version = self.current_version.fetch_add(1, Ordering::AcqRel) + 1;
 
+            // Count the token while the lock is still held (see acquire_reader_token);
+            // an exclusive writer was already counted when it claimed its slot
+            if !exclusive {
+                self.active_writers.fetch_add(1, Ordering::Relaxed);
+            }
+
             (version, current_min)
         } else {
+            if !exclusive {
+                self.active_writers.fetch_add(1, Ordering::Relaxed);
+            }
             (1, 1)
         };
 
         #[cfg(feature = "zipora_verif")]
         crate::verif_hooks::sched_point(402);
-        // Increment active writer count
-        self.active_writers.fetch_add(1, Ordering::Relaxed);
 
         // Update statistics
         if let Ok(mut stats) = self.stats.lock() {
@@ -553,6 +571,12 @@ impl VersionManager {
     fn try_advance_min_version(&self) {
         #[cfg(feature = "zipora_verif")]
         crate::verif_hooks::sched_point(421);
+        // Serialise with token acquisition, which assigns a version and counts the new token
+        // under the same lock; otherwise min_version could overtake a token being handed out
+        let _lock = self
+            .token_chain_mutex
+            .lock()
+            .unwrap_or_else(|poisoned| poisoned.into_inner());
         if self.active_readers.load(Ordering::Relaxed) == 0
             && self.active_writers.load(Ordering::Relaxed) == 0
         {
